@@ -62,6 +62,13 @@ func replayBFS(c *runCtx, model, file string, opts func(tier string) interface{}
 	if rf.Violation.Opts != nil {
 		ob, _ = json.Marshal(rf.Violation.Opts) // the options of the pass that found it
 	}
+	for _, e := range rf.Violation.Hist {
+		if len(e) > 0 && e[0] == '#' {
+			// a crash / fault history (second pass of a check): the fault model replays it
+			model = "c06"
+			ob = []byte("{}")
+		}
+	}
 	hb, _ := json.Marshal(rf.Violation.Hist)
 	cmd := exec.Command(c.Bin, "replay", model, string(ob), string(hb))
 	cmd.Stdout = os.Stdout
